@@ -115,6 +115,60 @@ fn split_merge_error(a: &[i64]) -> Result<f64, String> {
     Ok(worst / (TOL * fnorm.max(1e-300)))
 }
 
+/// the same two identities on a = 2^ka * A, b = 2^kb * B with integer A, B: scaling by a power of two is exact in
+/// binary floating point, so a correct (linear / bilinear) transform has the same RELATIVE error at every scale;
+/// the allowance scales with the operands' norms, exactly as the property states it
+fn scaled_errors(a: &[i64], b: &[i64], ka: i32, kb: i32) -> Result<(f64, f64), String> {
+    let n = a.len();
+    let (sa, sb) = (2f64.powi(ka), 2f64.powi(kb));
+    let ra: Vec<C> = a.iter().map(|&x| (x as f64 * sa, 0.0)).collect();
+    let rb: Vec<C> = b.iter().map(|&x| (x as f64 * sb, 0.0)).collect();
+    let back = catch(|| fh::complex_ifft(&fh::complex_fft(&ra)))?;
+    let prod = catch(|| fh::complex_ifft(&fh::complex_hadamard_mul(&fh::complex_fft(&ra), &fh::complex_fft(&rb))))?;
+    let want = poly::mul_z(a, b);
+    let (na, nb) = (norm2(a) * sa, norm2(b) * sb);
+    let (mut e1, mut e2): (f64, f64) = (0.0, 0.0);
+    for k in 0..n {
+        e1 = e1.max((back[k].0 - ra[k].0).abs()).max(back[k].1.abs());
+        e2 = e2.max((prod[k].0 - want[k] as f64 * sa * sb).abs()).max(prod[k].1.abs());
+    }
+    let f = |e: f64, allow: f64| if e.is_finite() { e / allow } else { f64::INFINITY };
+    Ok((f(e1, TOL * na), f(e2, TOL * na * nb)))
+}
+
+fn check_scales(n: usize, ladder: &[i32]) -> Res {
+    let mut r = Res::default();
+    let mut idx = vec![0usize, 1 % n, n / 2, n - 1];
+    idx.sort();
+    idx.dedup();
+    let dense = corner_vectors(n, 1);
+    for &ka in ladder {
+        for &kb in &[ka, 0, 10] {
+            let mut cases: Vec<(String, Vec<i64>, Vec<i64>)> = vec![];
+            for &i in &idx {
+                for &j in &idx {
+                    cases.push((format!("X^{} , X^{}", i, j), unit(n, i, 1), unit(n, j, 1)));
+                }
+            }
+            for (na, a) in dense.iter().take(4) {
+                cases.push((format!("{} , ramp", na), a.clone(), dense[dense.len() - 2].1.clone()));
+            }
+            for (name, a, b) in cases {
+                let res = scaled_errors(&a, &b, ka, kb);
+                let case = json!({"kind":"scaled","n":n,"ka":ka,"kb":kb,"pair":name});
+                match res {
+                    Ok((e1, e2)) => {
+                        record(&mut r, Ok(e1), format!("fft:scaled-roundtrip:n={}", n), |x| format!("n={}: ifft(fft(2^{} * [{}].0)) is off by {:.3e} x the allowed 2^-30 ||a|| (the transform is not scale-invariant)", n, ka, name, x), case.clone(), 2);
+                        record(&mut r, Ok(e2), format!("fft:scaled-product:n={}", n), |x| format!("n={}: ifft(fft(2^{} a) .* fft(2^{} b)) for (a , b) = ({}) is off by {:.3e} x the allowed 2^-30 ||a|| ||b||", n, ka, kb, name, x), case, 4);
+                    }
+                    Err(e) => record(&mut r, Err(e), format!("fft:scaled:n={}", n), |_| String::new(), case, 6),
+                }
+            }
+        }
+    }
+    r
+}
+
 fn record(r: &mut Res, rel: Result<f64, String>, key: String, what: impl Fn(f64) -> String, case: Value, calls: u64) {
     r.cases += 1;
     r.calls += calls;
@@ -207,6 +261,23 @@ pub fn run(tier: Tier) {
         if tier.thorough() { "every n: ifft(fft(2^14 X^i) .* fft(2^10 X^j)) = +-2^24 X^(i+j) for ALL pairs (i,j)" } else { "n <= 128: all pairs (i,j); larger n: all i, j in {0,1,n/2,n-1}: ifft(fft(2^14 X^i) .* fft(2^10 X^j)) = +-2^24 X^(i+j)" },
     );
     let mut pc = Part::new("corner_families", "every n: all-max, alternating, Walsh sign patterns (4 representatives), ramp, near-max vectors at magnitude 2^14 x the same at 2^10: round trip, split/merge, and product against the exact i128 schoolbook negacyclic product");
+    // scale ladder: the same identities with the operands scaled by 2^k
+    let ladder: Vec<i32> = if tier.thorough() { (-64..=14).collect() } else { (-64..=14).step_by(6).chain([-34, -24, -23, 14]).collect() };
+    let sres: Vec<(usize, Res)> = sizes.par_iter().map(|&n| (n, check_scales(n, &ladder))).collect();
+    let mut ps = Part::new("scale_ladder", &format!("every n: operands 2^ka A and 2^kb B for ka in {} exponents from -64 to 14, kb in {{ka, 0, 10}}; (A,B) = all pairs of X^i, i in {{0,1,n/2,n-1}}, and four dense sign patterns against a ramp: round trip and product against the exact integer product scaled exactly; tolerance 2^-30 of the operands' norms at that scale", ladder.len()));
+    let mut sworst: f64 = 0.0;
+    for (n, r) in sres {
+        ps.states += r.cases;
+        ps.transitions += r.calls;
+        ps.validated += r.cases;
+        sworst = sworst.max(r.worst);
+        ps.outcome(format!("n={} worst error = 2^{:.1} of the allowance", n, r.worst.max(1e-300).log2()));
+        for f in r.found {
+            ctx.violation(f.key, f.what, f.case);
+        }
+    }
+    ps.set("worst_error_over_allowance_log2", json!(sworst.max(1e-300).log2()));
+    ps.exhaustive = tier.thorough();
     let mut worst = (0.0f64, 0.0f64, 0.0f64);
     for (n, (b, p, c)) in res {
         for (part, r, w) in [(&mut pb, &b, &mut worst.0), (&mut pp, &p, &mut worst.1), (&mut pc, &c, &mut worst.2)] {
@@ -229,6 +300,7 @@ pub fn run(tier: Tier) {
     ctx.add_part(pb);
     ctx.add_part(pp);
     ctx.add_part(pc);
+    ctx.add_part(ps);
 
     // informational: distance of the precomputed table from cos/sin (not a verdict)
     let table = fh::complex_table();
@@ -246,6 +318,10 @@ pub fn run(tier: Tier) {
 
 pub fn replay(case: &Value) -> Result<Option<String>, String> {
     let n = case.get("n").and_then(|x| x.as_u64()).ok_or("n")? as usize;
+    if case.get("kind").and_then(|x| x.as_str()) == Some("scaled") {
+        let ka = case.get("ka").and_then(|x| x.as_i64()).ok_or("ka")? as i32;
+        return Ok(check_scales(n, &[ka]).found.into_iter().next().map(|f| f.what));
+    }
     let (b, p, c) = check_size(n, true);
     Ok(b.found.into_iter().chain(p.found).chain(c.found).next().map(|f| f.what))
 }
